@@ -183,6 +183,11 @@ void h_w2l_bounded(void)
 {
     XalanDOMChar s[10];
     s[9] = 0;
+#ifdef XV_ALPHABET
+    /* bounded stand-in for the quick tier: one representative unit per class the function distinguishes */
+    for (int k = 0; k < 9; ++k)
+        __CPROVER_assume(s[k] == 0 || s[k] == 0x20 || s[k] == 0x0A || s[k] == 0x2D || s[k] == 0x2E || s[k] == 0x30 || s[k] == 0x31 || s[k] == 0x37 || s[k] == 0x39 || s[k] == 0x78);
+#endif
     g_str = s; g_n = 9;
     long r = WideStringToLong(s);
     bool point;
@@ -243,6 +248,8 @@ UNIT = Unit(
             replace=['length', 'consumeWhitespace2', 'WideStringToLong', 'xv_decimal_point', 'xv_atof', 'xv_vec_reserve',
                      'CopyWideStringToVector', 'xv_atof_vec'],
             loop_contracts=True, reach=['entry:convertHelper', 'after_loop0:convertHelper'], timeout=600, flags=['--object-bits', '12']),
+        Job('w2l_alphabet', 'h_w2l_bounded', cls='B', unwind=11, dfcc=False, defines=['XV_BOUNDED', 'XV_ALPHABET'], reach=['h_w2l_bounded'],
+            bound_note='all strings of fewer than 10 units over the 10 representative units NUL space LF - . 0 1 7 9 x (one per class the function distinguishes)', timeout=900),
         Job('w2l_bounded', 'h_w2l_bounded', cls='W', unwind=11, thorough_only=True, dfcc=False, defines=['XV_BOUNDED'], reach=['h_w2l_bounded'],
             bound_note='complete for the precondition of the fast path: all strings of fewer than 10 UTF-16 units (full alphabet)', timeout=900),
     ],
@@ -251,6 +258,7 @@ UNIT = Unit(
         Mutant('copy_off_by_one', DS, r'theBuffer\[theLength\] = \'\\0\';', "theBuffer[theLength - 1] = '\\\\0';", expect=None),
         Mutant('buffer_le', DS, r'if \(theLength < theBufferSize\)', 'if (theLength <= theBufferSize)', expect=None),
         Mutant('w2l_neg_lost', DH, r'return isNegative == true \? -theResult : theResult;', 'return theResult;', expect='WideStringToLong'),
+        Mutant('w2l_sign_before_whitespace', DH, r'(// Consume any leading whitespace \(which we allow\)\s*while\(isXMLWhitespace\(\*theString\) == true\)\s*\{\s*\+\+theString;\s*\}\s*)(const bool  isNegative = \*theString == XalanUnicode::charHyphenMinus \? true : false;\s*if \(isNegative == true\)\s*\{\s*\+\+theString;\s*\}\s*)', r'\2\1', expect='WideStringToLong'),
     ],
     mechanisms=['string to double (integer fast path for < 10 characters, atof otherwise)'],
     assumptions=['atof / strtod of the C library is correctly rounded (stub xv_atof: only its precondition is verified)',
